@@ -27,6 +27,9 @@ CLAIMED = {
  "C05": ("exploration", "Hypothesis parameter dictionaries -> library composer vs independent standards builder, byte-for-byte; CDB parameter-list-length audit; iSCSI name lengths 1..223 enumerated", "4 C05",
          "Valid parameter dictionaries for MODE SELECT 6/10, PERSISTENT RESERVE OUT (all service actions, TransportIDs of every kind) and EXTENDED COPY LID1/LID4 are generated; the composed data-out must equal, byte for byte, what builders written from SPC-4/5 produce for the same values (positions, every embedded length, zeros elsewhere) and the CDB must announce exactly its length.",
          "stdspec/paramlists.py; permitted variants: MODE DATA LENGTH zero or MODE SENSE value, iSCSI TransportID padded to 20 bytes or not; SOP TransportIDs unmodelled"),
+ "C06": ("exploration", "Hypothesis round trips in both directions per structure and a single-field read-modify-write metamorphic relation judged at the standard's field position", "4 C06",
+         "For every structure the library can both build and parse: generated value dictionaries must survive marshall->unmarshall, canonical device bytes from the independent builders must survive unmarshall->marshall byte for byte, and changing one generated field of a parsed mode page / READ CAPACITY(16) data and rebuilding must change exactly that field's bits (also through modesense -> result -> modeselect on a device object, the pattern of tools/swp.py).",
+         "canonical forms restricted to what the library can represent (no block descriptors, one mode page, 4 trailing element-descriptor bytes); positions for (c) from stdspec/responses.py"),
  "C07": ("fault_enumeration", "fault injection: generated (command, status, sense, raw-sense, re-execution) histories on SG_IO and iSCSI stand-ins + status-byte sweep through direct execute and every facade method; expected-outcome oracle", "4 C07",
          "Statuses and sense buffers are injected behind both binding stand-ins at generated positions of generated command histories; all 256 status bytes are swept through direct execute and the named/selected ones through each facade method; the oracle is the outcome table of the property (GOOD returns, CHECK CONDITION raises with the injected key/ASC/ASCQ or attaches raw sense when asked, other statuses raise their named error, the facade passes the device's exception object on).",
          "stand-ins model cython-sgio (CheckConditionError / UnspecifiedError, no status byte) and cython-iscsi (Task.status, Task.raw_sense); SG_IO non-CHECK-CONDITION failures: any exception"),
